@@ -2,7 +2,8 @@
 // connected components with a cycle of the package-local call graph.  The
 // graph is syntactic (go/ast, no type information): a call f(...) or x.f(...)
 // is an edge to every function or method named f declared in the same
-// package, so the list over-approximates (used by the C05 depth-attack
+// package, and so is a function of the package passed as an argument
+// (pdf.Decode(c, obj, f)), so the list over-approximates (used by the C05 depth-attack
 // review, notes/C05.md).
 //
 //	go run tools/recfuncs/main.go <repo> [<package dir relative to repo> ...]
@@ -102,6 +103,23 @@ func list(repo, dir string) {
 					if !seen[j] {
 						seen[j] = true
 						adj[i] = append(adj[i], j)
+					}
+				}
+				// a function passed as an argument (pdf.Decode(c, obj, Font)) is called by the callee:
+				// count it as an edge as well, marked with "~" in the output when such an edge closes the cycle
+				for _, arg := range call.Args {
+					var name string
+					switch a := arg.(type) {
+					case *ast.Ident:
+						name = a.Name
+					case *ast.SelectorExpr:
+						name = a.Sel.Name
+					}
+					for _, j := range byName[name] {
+						if !seen[j] {
+							seen[j] = true
+							adj[i] = append(adj[i], j)
+						}
 					}
 				}
 				return true
